@@ -499,6 +499,55 @@ C04_CHAIN_PART = {
 }
 
 
+# ---- SERVER HALVES of C09 / C10 / C11 / C14 / C18 (ready-made parts; the owning SPECS entry adds the part to its
+# "parts" list and "Checks/<chk>.vo" to its "coq_targets"; corpus of a part: corpus/<pid>/server/*.txt) ----
+def _tags(*tags):
+    return lambda c: any(t in c["tags"] for t in tags)
+
+
+C14_SERVER_PART = server_part(
+    "C14", "C14server", "c14",
+    nontrivial=_tags("ready-pending", "flush-pending", "notready-but-flush-ok", "fault-ready", "fault-send",
+                     "fault-flush"),
+    rule_tail="C14 bias: sink not ready / flush pending / not ready while the flush completes (F3's shape), capacity 0 "
+              "and 1 transports coupled and independent, one-shot faults of every transport method, drains between "
+              "polls; the monitor is Transport.contract_ok over the per-poll call logs of the real Requests stream up "
+              "to the first poll that yields an error; non-trivial = the real channel met a not-ready sink, a pending "
+              "flush or an armed fault")
+C11_SERVER_PART = server_part(
+    "C11", "C11server", "c11", quick=300,
+    nontrivial=_tags("drained-to-zero", "long"),
+    rule_tail="C11 bias: long runs (a sixth of the scripts 300..420 ops) of requests that complete, are cancelled, "
+              "expire, are throttled or are abandoned by the application, then a quiet period; the monitor compares "
+              "the real in-flight and timer gauges after every op with the number of requests that may still be open; "
+              "non-trivial = the real channel went from tracked requests back to 0 tracked, 0 timers, or ran a long "
+              "script",
+    known_sigs={"LimiterBlockedOnSink": srv_known_bit("C11", lambda: C11_SERVER_PART)},
+    known_witness={"LimiterBlockedOnSink": SRV_K2_WITNESS})
+C10_SERVER_PART = server_part(
+    "C10", "C10server", "c10",
+    nontrivial=_tags("stream-end"),
+    rule_tail="C10 bias: end of stream from the peer at every point (nothing in flight, handlers running, responses "
+              "buffered, sink not ready, flush pending); the monitor requires that the real Requests stream ends only "
+              "after eof with nothing in flight, every buffered response written and the sink flushed, and that it "
+              "does end once that holds; non-trivial = the real stream ended")
+C09_SERVER_PART = server_part(
+    "C09", "C09server", "c09", quick=200,
+    nontrivial=_tags("stream-err", "aborted-by-channel-drop"),
+    rule_tail="C09 bias: one-shot faults of poll_next / poll_ready / start_send / poll_flush at every point, dropping "
+              "the channel with handlers not started / running / waiting for the buffer; the monitor requires that a "
+              "transport failure surfaces as the stream's error with the failing activity, that after a dropped "
+              "channel every execute() future completes without polling its handler again, and that nothing panics; "
+              "non-trivial = the real stream yielded an error or a channel drop aborted a handler")
+C18_SERVER_PART = server_part(
+    "C18", "C18server", "c18",
+    nontrivial=_tags("yield-sampled"),
+    rule_tail="C18: every request carries a trace number 2*trace_id + sampled bit (trace ids 0..4, both sampling "
+              "decisions), sent with span id 0; the observation of a yield reads trace id and sampling decision back "
+              "from the context the real InFlightRequest hands to the handler (the span id drawn by the server is not "
+              "observed); non-trivial = the real channel yielded a request whose context is Sampled")
+
+
 def _server_spec(pid, parts, level_text, level_note, assumptions):
     chks = []
     for p in parts:
@@ -731,7 +780,8 @@ SPECS["C05"] = _client_only(
     _CLIENT_NOTE + "Promptness ('once its deadline passes, to timer granularity') is the second theorem "
     "C05_client_prompt (monitor ClientMon2.c05p_ok, also run on the implementation's traces): after a dispatch poll "
     "that returned Pending at clock T no transmitted request that is due at T leaves its caller pending. Deadlines "
-    "beyond 365 days fire at the clamp and are exempted by the monitors.")
+    "beyond 365 days fire at the clamp and are exempted by the monitors.",
+    sweeps=[["--len", "5"]])
 
 SPECS["C18"] = _client_only(
     "C18", "c18", "C18client", has("wire-cancel", "in-flight>=1"),
@@ -868,7 +918,8 @@ SPECS["C03"] = _client_only(
     "dispatch, with the guard's drop split between close and cancel through the yield hook (H3) in half of the "
     "abandonments.",
     _CLIENT_NOTE + "Without hook H3 a swap of close() and cancel() in ResponseGuard::drop would be invisible at poll "
-    "granularity; with it the split op GuardClose/GuardCancel has an implementation counterpart.")
+    "granularity; with it the split op GuardClose/GuardCancel has an implementation counterpart.",
+    sweeps=[["--len", "5"]])
 
 
 SPECS["C02"] = {
